@@ -52,7 +52,16 @@ MANIFEST = {
             "(first operand's overlay/cache keys only) and of the shipped __setattr__ (stale memoised data object); the buffer abstraction is "
             "tied to the C04 extractor by buffer_index_refines / buffer_concat_refines; the model's notions are pinned by list facts "
             "and laws (fileCol_get, transposeN_get, get_idempotent, setattr_get, select_select_view, replace_replace_view, "
-            "concat_assoc_view, write_untouched). Correspondence: "
+            "concat_assoc_view). The write step is compared for every configuration: programs (bytes, canonical files), "
+            "programs_values (success-vs-failure of every write, payload masked), programs_nonwrite (any buffer type), "
+            "bam_untouched_write_diverges / bam_modified_write_both_err (BAM: untouched lazy table writes, eager cannot). A field number "
+            "outside the entry type fails on both sides (no guard); the remaining guard (replacement columns have one value per row) is "
+            "the property's domain, decided by runOKb (runOKb_sound; reported by the driver for every request) and shown necessary "
+            "(illsized_setattr_diverges). untouched_writes: under EVERY program without replace/setattr every lazy write is the "
+            "original bytes of the rows the same program selects on plain row lists. lazy_index_buffer / lazy_concat_buffer connect "
+            "Lazy.index / concatNew to the C04 extractor; chunked_read(_programs): a file read in chunks and concatenated is the file "
+            "read whole. That lazy and eager parse a cell to the same value is by construction of the model (C02 + the harness). "
+            "Correspondence: "
             "the real package run twice (lazy=True/False) on generated files and random programs vs the Lean lazy and eager models "
             "vs a Python list-of-rows oracle.",
     "note": "The buffer is abstracted to the list of rows it denotes (C04) and parsing to a per-row function (C02).",
@@ -642,6 +651,8 @@ def agree_model(c, got, m):
     """exact per-step equality of both traces with the Lean lazy / eager machines, except at the steps whose divergence is a
     recorded finding outside the modelled code (t[i] TypeError from npstructures; eager header context)"""
     if not isinstance(got, dict) or "lazy" not in got:
+        return False
+    if m.get("dom") is not True:     # the run must lie in the domain of the Lean program theorems (runOKb_sound -> RunOK)
         return False
     hdr = _header(c)
     for mode in ("lazy", "eager"):
